@@ -495,6 +495,32 @@ func ruleCopyLimit(c *Ctx) {
 			}
 			add(key, b.posOf(st), bad == "", fmt.Sprintf("the accumulation is dominated by the non-nil edge of all %d location lookup(s)", n), bad)
 		}
+		// legacy: what deepCopy measures is the encoder's output for every kind of node
+		if b.Name == "legacy" {
+			if mj := b.method(b.Lib, "lazyNode", "MarshalJSON"); mj != nil {
+				key := "(ii) size: every arm of lazyNode.MarshalJSON returns the encoder's output (what deepCopy measures is the output spelling)"
+				bad := ""
+				n := 0
+				for _, r := range liveReturns(mj) {
+					if !isNilConst(retVal(r, 1)) && b.definitelyNonNilErr(retVal(r, 1), r.Block(), 0) {
+						continue
+					}
+					n++
+					ok := false
+					if ex, isEx := retVal(r, 0).(*ssa.Extract); isEx {
+						if call, isCall := ex.Tuple.(*ssa.Call); isCall {
+							if f := call.Call.StaticCallee(); f != nil && f.Pkg != nil && f.Pkg.Pkg.Path() == "encoding/json" && strings.HasPrefix(f.Name(), "Marshal") {
+								ok = true
+							}
+						}
+					}
+					if !ok {
+						bad = "the bytes returned at " + b.posOf(r) + " are " + describeValue(retVal(r, 0)) + ", not the result of json.Marshal: deepCopy then charges the spelling of the input (whitespace counted, <, >, & not yet escaped) instead of the spelling in the output"
+					}
+				}
+				add(key, b.rel(mj.Pos()), bad == "", fmt.Sprintf("%d successful return(s), each json.Marshal(…)", n), bad)
+			}
+		}
 		// other handlers never touch the accumulator: only the copy handler has a *int64 parameter
 		{
 			var others []string
@@ -702,6 +728,60 @@ func ruleOptScope(c *Ctx) {
 			l.add("R-OPTSCOPE", "v5", key, b.rel(impl.Pos()), Violated, bad, true)
 		} else {
 			l.add("R-OPTSCOPE", "v5", key, b.rel(impl.Pos()), Discharged, "no error return is the immediate outcome of a length comparison: each range test leads to the option test first", true)
+		}
+	}
+	// an index token too large for an int is an index outside the array, not a malformed token:
+	// the array's remove method tells strconv.ErrRange apart on the parse-error edge and lets the
+	// option forgive it
+	if rm := b.method(b.Lib, "partialArray", "remove"); rm != nil {
+		key := "(*partialArray).remove: an index too large for int counts as out of range, not as a malformed token"
+		ok := false
+		allInstrs(rm, func(i ssa.Instruction) {
+			call, isCall := i.(*ssa.Call)
+			if !isCall {
+				return
+			}
+			f := call.Call.StaticCallee()
+			if f == nil || stdName(f) != "errors.Is" || len(call.Call.Args) != 2 {
+				return
+			}
+			if g := loadedGlobal(call.Call.Args[1]); g == nil || g.Name() != "ErrRange" {
+				return
+			}
+			// its true edge reaches a read of the option
+			for _, r := range *call.Referrers() {
+				iff, isIf := r.(*ssa.If)
+				if !isIf {
+					continue
+				}
+				seen := map[*ssa.BasicBlock]bool{}
+				var walk func(bb *ssa.BasicBlock) bool
+				walk = func(bb *ssa.BasicBlock) bool {
+					if seen[bb] {
+						return false
+					}
+					seen[bb] = true
+					for _, ins := range bb.Instrs {
+						if fa, isFA := ins.(*ssa.FieldAddr); isFA && fieldName(fa.X.Type(), fa.Field) == field {
+							return true
+						}
+					}
+					for _, sx := range bb.Succs {
+						if walk(sx) {
+							return true
+						}
+					}
+					return false
+				}
+				if walk(iff.Block().Succs[0]) {
+					ok = true
+				}
+			}
+		})
+		if ok {
+			l.add("R-OPTSCOPE", "v5", key, b.rel(rm.Pos()), Discharged, "errors.Is(err, strconv.ErrRange) on the parse-error edge leads to the option test", true)
+		} else {
+			l.add("R-OPTSCOPE", "v5", key, b.rel(rm.Pos()), Violated, "every parse error of the index is returned as it is: `remove /99999999999999999999` (a numeric index that exists in no array) aborts the patch even with AllowMissingPathOnRemove set", true)
 		}
 	}
 	// the branch in the handler is on the unreachable-parent edge only, and the
